@@ -157,6 +157,8 @@ impl Network {
             debug!("static peer : {:?} connected", peer_index);
             peer.peer_status = PeerStatus::Connecting;
             peer.ip_address = ip_addr;
+            // a challenge issued on the previous connection must not be answerable on this one
+            peer.challenge_for_peer = None;
         } else {
             debug!("new peer added : {:?}", peer_index);
             let mut peer = Peer::new(peer_index);
